@@ -3,6 +3,7 @@
 package weshnet
 
 import (
+	"archive/tar"
 	"bytes"
 	"context"
 	"fmt"
@@ -76,7 +77,76 @@ type c19pool struct {
 	names []string
 }
 
-func (p *c19pool) add(name string, b []byte) { p.bytes = append(p.bytes, b); p.names = append(p.names, name) }
+func (p *c19pool) add(name string, b []byte) {
+	for i, n := range p.names {
+		if n == name { // one value per name: the latest (names, not values, make the trace)
+			p.bytes[i] = b
+			return
+		}
+	}
+	p.bytes = append(p.bytes, b)
+	p.names = append(p.names, name)
+}
+
+// harvest adds the byte fields of a reply to the pool (bounded), so that later requests can refer to what the
+// service handed out: group keys, CIDs, device keys.
+func (p *c19pool) harvest(method string, m protoreflect.Message, depth int) {
+	if len(p.names) > 40 || depth > 2 {
+		return
+	}
+	fields := m.Descriptor().Fields()
+	for i := 0; i < fields.Len(); i++ {
+		fd := fields.Get(i)
+		if fd.IsList() || fd.IsMap() || !m.Has(fd) {
+			continue
+		}
+		switch fd.Kind() {
+		case protoreflect.BytesKind:
+			if b := m.Get(fd).Bytes(); len(b) > 0 && len(b) <= 128 {
+				p.add("reply:"+method+"."+string(fd.Name()), append([]byte(nil), b...))
+			}
+		case protoreflect.MessageKind:
+			p.harvest(method+"."+string(fd.Name()), m.Get(fd).Message(), depth+1)
+		}
+	}
+}
+
+// c19archive builds an export archive out of edge cases: known and unknown member names, bodies that are keys,
+// garbage or empty, and headers that announce more than follows (up to an absurd size).
+func c19archive(p *c19pool) ([]byte, string) {
+	var buf bytes.Buffer
+	var desc strings.Builder
+	tw := tar.NewWriter(&buf)
+	n := 1 + p.r.Pick("members", 3)
+	for i := 0; i < n; i++ {
+		name := []string{exportAccountKeyFilename, exportAccountProofKeyFilename, "entries/bafyreigdmqpykrgxyaxtlafqpqhzrb7qy2rh75nldvfd4tucqmqqme5yje", "heads/x", "unknown", ""}[p.r.Pick("name", 6)]
+		body, bn := p.pick()
+		size := int64(len(body))
+		kind := p.r.Pick("size", 4)
+		switch kind {
+		case 1:
+			size = int64(len(body)) + 1 // one byte short
+		case 2:
+			// absurd announced size. (Sizes that a careless make() could attempt, like 1<<40, are not used: the
+			// allocation failure would be a fatal runtime error that kills the worker without a replayable witness.)
+			size = 1 << 62
+		}
+		fmt.Fprintf(&desc, "%s[%s,size-kind %d] ", name, bn, kind)
+		if err := tw.WriteHeader(&tar.Header{Name: name, Mode: 0o600, Size: size, Format: tar.FormatGNU}); err != nil {
+			continue
+		}
+		if size == int64(len(body)) {
+			_, _ = tw.Write(body)
+		} else {
+			// the header is already in the buffer; the body that follows is shorter than announced
+			_ = tw.Flush()
+			buf.Write(body)
+			return buf.Bytes(), desc.String()
+		}
+	}
+	_ = tw.Close()
+	return buf.Bytes(), desc.String()
+}
 
 func (p *c19pool) pick() ([]byte, string) {
 	i := p.r.Pick("bytes", len(p.bytes))
@@ -173,7 +243,9 @@ func c19run(t *testing.T, r *kernel.Run) {
 	_, other, _ := crypto.GenerateEd25519Key(nil)
 	otherRaw, _ := other.Raw()
 	pool.add("valid-unknown-ed25519-key", otherRaw)
+	var accountGroupPK []byte
 	if ag := svc.getAccountGroup(); ag != nil {
+		accountGroupPK = ag.Group().PublicKey
 		pool.add("account-group-pk", ag.Group().PublicKey)
 		mk, _ := ag.MemberPubKey().Raw()
 		pool.add("own-account-pk", mk)
@@ -205,9 +277,49 @@ func c19run(t *testing.T, r *kernel.Run) {
 	sv := reflect.ValueOf(svc)
 	nreq := r.Int("requests", 1, 25)
 	r.Logf("service session: %d requests over %d methods", nreq, len(methods))
-	joined := false
+	joined, contactGroup := false, false
+	rich := r.Pick("rich", 4) // bit 0: the session starts by joining a multi-member group, bit 1: by creating a contact group
+	var last func() bool // the previous request, to be repeated
 	for i := 0; i < nreq && !r.Failed(); i++ {
-		switch a := r.Pick("kind", 10); {
+		a := r.Pick("kind", 16)
+		if i == 0 && rich&1 != 0 {
+			a = 8
+		} else if i <= 1 && rich&2 != 0 && !contactGroup {
+			a = 11
+		} else if a >= 14 {
+			a = 10 // state changes are three times as likely as any other special step
+		}
+		switch {
+		case a == 13 && last != nil: // the same request again (a refused request must not leave anything behind that breaks the next one)
+			r.Logf("repeat the previous request")
+			r.Fault("repeated_request")
+			if last() {
+				return
+			}
+			continue
+		case a == 12: // an export archive built from edge cases
+			arch, d := c19archive(pool)
+			r.Logf("RestoreAccountExport on archive %s", d)
+			r.Fault("crafted_archive")
+			if c19call(r, "RestoreAccountExport(archive "+d+")", func() {
+				_ = RestoreAccountExport(ctx, bytes.NewReader(arch), svc.ipfsCoreAPI, svc.odb, zap.NewNop())
+			}) {
+				return
+			}
+			continue
+		case a == 11 && !contactGroup: // make the session richer: a contact group known to the service
+			contactGroup = true
+			r.Logf("create a contact group")
+			if c19call(r, "contact group setup", func() {
+				_, _ = svc.ContactRequestSend(ctx, &protocoltypes.ContactRequestSend_Request{Contact: &protocoltypes.ShareableContact{Pk: otherRaw, PublicRendezvousSeed: kernel.DetBytes(9, 32)}})
+				if info, err := svc.GroupInfo(ctx, &protocoltypes.GroupInfo_Request{ContactPk: otherRaw}); err == nil && info.Group != nil {
+					pool.add("contact-group-pk", info.Group.PublicKey)
+					_, _ = svc.ActivateGroup(ctx, &protocoltypes.ActivateGroup_Request{GroupPk: info.Group.PublicKey, LocalOnly: true})
+				}
+			}) {
+				return
+			}
+			continue
 		case a == 9: // helpers exposed to applications for untrusted bytes
 			b, n := pool.pick()
 			key, kn := pool.pick()
@@ -232,12 +344,22 @@ func c19run(t *testing.T, r *kernel.Run) {
 				return
 			}
 			continue
-		case a == 8: // change the service state: deactivate / reactivate a group (account group included)
+		case a == 10: // change the service state: deactivate / reactivate a group (account group included)
 			var gpk []byte
 			name := "account-group"
-			if ag := svc.getAccountGroup(); ag != nil && r.Bool("acct") {
-				gpk = ag.Group().PublicKey
-			} else {
+			var known []int // groups this session made the service know
+			for i, n := range pool.names {
+				if n == "joined-group-pk" || n == "contact-group-pk" {
+					known = append(known, i)
+				}
+			}
+			switch t := r.Pick("target", 4); {
+			case t <= 1 && accountGroupPK != nil:
+				gpk = accountGroupPK
+			case t == 2 && len(known) > 0:
+				k := known[r.Pick("known", len(known))]
+				gpk, name = pool.bytes[k], pool.names[k]
+			default:
 				gpk, name = pool.pick()
 			}
 			if r.Bool("deactivate") {
@@ -258,7 +380,7 @@ func c19run(t *testing.T, r *kernel.Run) {
 				}
 			}
 			continue
-		case a == 7 && !joined: // make the session richer: join and activate a real multi-member group
+		case a == 8 && !joined: // make the session richer: join and activate a real multi-member group
 			joined = true
 			r.Logf("join a multi-member group")
 			if c19call(r, "MultiMemberGroupJoin valid", func() {
@@ -278,11 +400,23 @@ func c19run(t *testing.T, r *kernel.Run) {
 			req := reflect.New(mt.In(1).Elem())
 			c19fill(pool, req.Interface().(proto.Message).ProtoReflect(), 0, &desc)
 			r.Logf("%s %s", name, desc.String())
-			r.Step()
-			cctx, ccancel := context.WithTimeout(ctx, 300*time.Millisecond)
-			p := c19call(r, name+" "+desc.String(), func() { mv.Call([]reflect.Value{reflect.ValueOf(cctx), req}) })
-			ccancel()
-			if p {
+			what := name + " " + desc.String()
+			last = func() bool {
+				r.Step()
+				cctx, ccancel := context.WithTimeout(ctx, 300*time.Millisecond)
+				defer ccancel()
+				var out []reflect.Value
+				if c19call(r, what, func() { out = mv.Call([]reflect.Value{reflect.ValueOf(cctx), req}) }) {
+					return true
+				}
+				if len(out) == 2 && !out[0].IsNil() && out[1].IsNil() {
+					if pm, ok := out[0].Interface().(proto.Message); ok {
+						pool.harvest(name, pm.ProtoReflect(), 0)
+					}
+				}
+				return false
+			}
+			if last() {
 				return
 			}
 		} else if mt.NumIn() == 2 {
